@@ -11,6 +11,8 @@ class C08World(WalletWorld):
 
     def ledger_view(self, wi, h):
         """What one handle reports.  Returns dict or None when an observer failed."""
+        if len(wi.account_ids) > 1:
+            return self.ledger_view_accounts(wi, h)
         v = {}
         ok, b = self.observe(lambda: h.balance())
         if not ok:
@@ -30,21 +32,94 @@ class C08World(WalletWorld):
         v['wkeys'] = wk
         return v
 
+    def ledger_view_accounts(self, wi, h):
+        """Several accounts: the same view per account (what carries the totals is the view of all accounts together),
+        plus what the argument-less calls report (they speak for the default account)."""
+        v = {'balance': 0, 'utxos': [], 'keys': [], 'wkeys': [], 'accounts': {}}
+        for a in wi.account_ids:
+            ok, b = self.observe(lambda: h.balance(account_id=a))
+            if not ok:
+                return {'error': 'balance(): %s: %s' % (type(b).__name__, b)}
+            ok, us = self.observe(lambda: [(u['txid'], u['output_n'], u['value'], u['key_id'])
+                                           for u in h.utxos(account_id=a)])
+            if not ok:
+                return {'error': 'utxos(): %s: %s' % (type(us).__name__, us)}
+            ok, ks = self.observe(lambda: [(k.id, k.balance, k.depth, k.address)
+                                           for k in h.keys(account_id=a, network=self.network) if k.depth >= 3])
+            if not ok:
+                return {'error': 'keys(): %s: %s' % (type(ks).__name__, ks)}
+            for k in ks:
+                v.setdefault('addr_account', {})[k[3]] = a
+            ks = [k[:3] for k in ks]
+            ok, wk = self.observe(lambda: [(kid, h.key(kid).balance()) for kid, _, _ in ks])
+            if not ok:
+                return {'error': 'key().balance(): %s: %s' % (type(wk).__name__, wk)}
+            v['accounts'][a] = {'balance': b, 'utxos': us, 'keys': ks, 'wkeys': wk}
+            v['balance'] += b
+            v['utxos'] += us
+            v['keys'] += ks
+            v['wkeys'] += wk
+        ok, b = self.observe(lambda: h.balance())
+        if not ok:
+            return {'error': 'balance(): %s: %s' % (type(b).__name__, b)}
+        v['default_balance'] = b
+        return v
+
     def check_view(self, wi, v, handle):
         w = self.w
+        if 'accounts' in v:
+            for a, va in sorted(v['accounts'].items()):
+                su = sum(x[2] for x in va['utxos'])
+                sk = sum((x[1] or 0) for x in va['keys'])
+                swk = sum((x[1] or 0) for x in va['wkeys'])
+                if not (va['balance'] == su == sk == swk):
+                    # a transaction is booked to ONE account; when it pays keys of two accounts of the wallet, the
+                    # outputs of the other account's keys are listed (and counted) under the booking account
+                    own = {x[0] for x in va['keys']}
+                    foreign = [u for u in va['utxos'] if u[3] not in own]
+                    elsewhere = [u for b_, vb in v['accounts'].items() if b_ != a for u in vb['utxos'] if u[3] in own]
+                    cause = 'other'
+                    if foreign or elsewhere:
+                        # ... which is the recorded limitation only for a transaction that really pays two accounts
+                        from ref import codec as rcodec
+                        cause = 'output_booked_to_other_account'
+                        for u in foreign + elsewhere:
+                            c = self.chain.txs.get(u[0])
+                            paid = set()
+                            # accounts the transaction touches: keys it pays and keys it spends from
+                            for spk in ([o.script_pubkey for o in c.tx.vout] + list(c.in_scripts) if c else []):
+                                try:
+                                    ad = rcodec.script_to_address(spk, self.network)
+                                except Exception:
+                                    ad = None
+                                if ad in v.get('addr_account', {}):
+                                    paid.add(v['addr_account'][ad])
+                            if len(paid) < 2:
+                                cause = 'single_account_transaction_booked_to_another_account'
+                    w.violation('balance_ne_utxos' if va['balance'] != su else 'balance_ne_key_balances',
+                                self.sig(wi, handle, accounts='several', cause=cause),
+                                '%s account %d: balance(account_id) = %r, utxos(account_id) sum to %r, keys(account_id) '
+                                'balances sum to %r, WalletKey.balance() to %r' % (wi.name, a, va['balance'], su, sk, swk))
+            d = v['accounts'][wi.account_ids[0]]['balance']
+            if v['default_balance'] != d:
+                w.violation('balance_ne_utxos', self.sig(wi, handle, accounts='several', call='balance()'),
+                            '%s: balance() = %r but the default account holds %r (balance(account_id=%d), utxos agree)' %
+                            (wi.name, v['default_balance'], d, wi.account_ids[0]))
         b = v['balance']
         su = sum(x[2] for x in v['utxos'])
-        if b != su:
+        if 'accounts' in v:
+            b = su = None       # judged per account above
+        elif b != su:
             w.violation('balance_ne_utxos', self.sig(wi, handle),
                         '%s: balance() = %r but utxos() sum to %r (%d utxos)' % (wi.name, b, su, len(v['utxos'])))
         sk = sum((x[1] or 0) for x in v['keys'])
-        if b != sk:
+        if b is not None and b != sk:
             w.violation('balance_ne_key_balances', self.sig(wi, handle),
                         '%s: balance() = %r but keys()[*].balance sum to %r; per key %s, utxos per key %s' %
                         (wi.name, b, sk, [(x[0], x[1]) for x in v['keys'] if x[1]],
                          sorted((u[3], u[2]) for u in v['utxos'])))
         swk = sum((x[1] or 0) for x in v['wkeys'])
-        if b != swk:
+        if b is not None and b != swk:
             w.violation('balance_ne_walletkey_balances', self.sig(wi, handle),
                         '%s: balance() = %r but WalletKey.balance() sum to %r: %s' %
                         (wi.name, b, swk, [x for x in v['wkeys'] if x[1]]))
